@@ -20,6 +20,10 @@ def bounds(tier):
             'global_variants': len(F.GLOBS), 'threads': 'see threaded_* keys'}
 
 
+def heavy(case):
+    return case.get('engine') == 'sched'
+
+
 def gen_cases(tier, seed):
     for c in F.gen(tier, letters='AHOGSNK'):
         yield c
